@@ -383,27 +383,33 @@ def St.remove (s : St) (ps : List Path) (allVersions force : Bool) : St × Out :
   let deletable := candidates.filter (fun a => force || (s.otherReferrers ts a).isEmpty)
   (deletable.foldl St.removeObj s, .ok)
 
+/-- `untrack`, first phase: re-materialise non-regular entries (symlinks) as copies; hard links are
+    regular files and stay as they are (K7) -/
+def St.rematerialise (s : St) (ts : List Ent) : St × Out :=
+  forEach (fun (s : St) (e : Ent) =>
+    match s.recs e with
+    | some r =>
+      match s.ws r.path, r.cur with
+      | some (.sym _), some d => s.recheckFromCache r.path (addrOf r.path d) .copy
+      | _, _ => (s, .ok)
+    | none => (s, .ok)) s ts
+
+/-- the five records of the target entities are removed -/
+def St.dropRecs (s : St) (ts : List Ent) : St := { s with recs := fun e => if e ∈ ts then none else s.recs e }
+
+/-- objects `untrack` may delete: every version of a target that no other tracked entity refers to -/
+def St.untrackDeletable (s : St) (ts : List Ent) : List Addr :=
+  (ts.flatMap s.versionsOf).filter (fun a => (s.otherReferrers ts a).isEmpty)
+
 /-- `cmd_untrack`. -/
 def St.untrack (s : St) (ps : List Path) : St × Out :=
   let ts := s.targetEnts ps
   -- every target must be present in the workspace: `symlink_metadata().unwrap()`
   if ts.any (fun e => match s.recs e with | some r => (s.ws r.path).isNone | none => false) then (s, .panic)
   else
-    -- re-materialise non-regular entries (symlinks) as copies; hard links are regular files (K7)
-    let (s1, o) := forEach (fun (s : St) (e : Ent) =>
-      match s.recs e with
-      | some r =>
-        match s.ws r.path, r.cur with
-        | some (.sym _), some d => s.recheckFromCache r.path (addrOf r.path d) .copy
-        | _, _ => (s, .ok)
-      | none => (s, .ok)) s ts
-    match o with
-    | .panic => (s1, .panic)
-    | _ =>
-      let candidates := ts.flatMap s.versionsOf
-      let deletable := candidates.filter (fun a => (s.otherReferrers ts a).isEmpty)
-      let s2 := { s1 with recs := fun e => if e ∈ ts then none else s1.recs e }
-      (deletable.foldl St.removeObj s2, .ok)
+    match s.rematerialise ts with
+    | (s1, .panic) => (s1, .panic)
+    | (s1, _) => ((s.untrackDeletable ts).foldl St.removeObj (s1.dropRecs ts), .ok)
 
 /-! ## `copy` and `move` (single file source, file destination, from the root) -/
 
@@ -472,7 +478,7 @@ def St.move (c : Cfg) (o : CopyOpts) (s : St) (src dst : Path) : St × Out :=
             | some en => ((s.setWs src none).setWs dst (some en), .ok)      -- `fs::rename`
             | none => (s, .refused)                     -- `fs::rename` fails: half-done move (K9)
         else
-          let s := if (s.readThrough src).isSome then s.setWs src none else s
+          let s := if (s.ws src).isSome then s.setWs src none else s      -- `symlink_metadata().is_ok()`
           if o.noRecheck then (s, .ok)
           else
             match r.cur with
